@@ -146,7 +146,7 @@ theorem N3_pk2_roundtrip (hc : c * c = 2) (h2 : (2:K) ≠ 0) (hJ : F.det ≠ 0) 
   rw [e, A] at B
   exact smul_cancel hJ B
 /-- `S ↦ σ ↦ S` -/
-theorem N3_pk2_roundtrip' (hc : c * c = 2) (h2 : (2:K) ≠ 0) (hJ : F.det ≠ 0) :
+theorem N3_pk2_roundtrip_rev (hc : c * c = 2) (h2 : (2:K) ≠ 0) (hJ : F.det ≠ 0) :
     M3.ofMandel c (Gen.N3_cauchy_to_pk2_r c c3 fn (Gen.N3_pk2_to_cauchy_rv c c3 fn p (tensv F)) (tensv F)) = M3.ofMandel c [p 0, p 1, p 2, p 3, p 4, p 5] := by
   have A := N3_cauchy_to_pk2 c c3 fn F (Gen.N3_pk2_to_cauchy_rv c c3 fn p (tensv F)) hc h2 hJ
   have B := N3_pk2_to_cauchy c c3 fn F p hc h2 hJ
@@ -163,7 +163,7 @@ theorem N3_corot_roundtrip (hc : c * c = 2) (h2 : (2:K) ≠ 0) (hU : (M3.ofMande
   rw [e, A] at B
   exact smul_cancel hU B
 /-- `S ↦ σ̃ ↦ S` -/
-theorem N3_corot_roundtrip' (hc : c * c = 2) (h2 : (2:K) ≠ 0) (hU : (M3.ofMandel c [u 0, u 1, u 2, u 3, u 4, u 5]).det ≠ 0) :
+theorem N3_corot_roundtrip_rev (hc : c * c = 2) (h2 : (2:K) ≠ 0) (hU : (M3.ofMandel c [u 0, u 1, u 2, u 3, u 4, u 5]).det ≠ 0) :
     M3.ofMandel c (Gen.N3_corot_to_pk2_r c c3 fn (Gen.N3_pk2_to_corot_rv c c3 fn p u) u) = M3.ofMandel c [p 0, p 1, p 2, p 3, p 4, p 5] := by
   have A := N3_corot_to_pk2 c c3 fn (Gen.N3_pk2_to_corot_rv c c3 fn p u) u hc h2 hU
   have B := N3_pk2_to_corot c c3 fn p u hc h2 hU
@@ -269,7 +269,7 @@ theorem N2_pk2_roundtrip (hc : c * c = 2) (h2 : (2:K) ≠ 0) (hJ : (plane f0 f1 
   rw [e, A] at B
   exact smul_cancel hJ B
 /-- `S ↦ σ ↦ S` -/
-theorem N2_pk2_roundtrip' (hc : c * c = 2) (h2 : (2:K) ≠ 0) (hJ : (plane f0 f1 f2 f3 f4).det ≠ 0) :
+theorem N2_pk2_roundtrip_rev (hc : c * c = 2) (h2 : (2:K) ≠ 0) (hJ : (plane f0 f1 f2 f3 f4).det ≠ 0) :
     M3.ofMandel c (Gen.N2_cauchy_to_pk2_r c c3 fn (Gen.N2_pk2_to_cauchy_rv c c3 fn p (tensv (plane f0 f1 f2 f3 f4))) (tensv (plane f0 f1 f2 f3 f4))) = M3.ofMandel c [p 0, p 1, p 2, p 3] := by
   have A := N2_cauchy_to_pk2 c c3 fn f0 f1 f2 f3 f4 (Gen.N2_pk2_to_cauchy_rv c c3 fn p (tensv (plane f0 f1 f2 f3 f4))) hc h2 hJ
   have B := N2_pk2_to_cauchy c c3 fn f0 f1 f2 f3 f4 p hc h2 hJ
@@ -286,7 +286,7 @@ theorem N2_corot_roundtrip (hc : c * c = 2) (h2 : (2:K) ≠ 0) (hU : (M3.ofMande
   rw [e, A] at B
   exact smul_cancel hU B
 /-- `S ↦ σ̃ ↦ S` -/
-theorem N2_corot_roundtrip' (hc : c * c = 2) (h2 : (2:K) ≠ 0) (hU : (M3.ofMandel c [u 0, u 1, u 2, u 3]).det ≠ 0) :
+theorem N2_corot_roundtrip_rev (hc : c * c = 2) (h2 : (2:K) ≠ 0) (hU : (M3.ofMandel c [u 0, u 1, u 2, u 3]).det ≠ 0) :
     M3.ofMandel c (Gen.N2_corot_to_pk2_r c c3 fn (Gen.N2_pk2_to_corot_rv c c3 fn p u) u) = M3.ofMandel c [p 0, p 1, p 2, p 3] := by
   have A := N2_corot_to_pk2 c c3 fn (Gen.N2_pk2_to_corot_rv c c3 fn p u) u hc h2 hU
   have B := N2_pk2_to_corot c c3 fn p u hc h2 hU
@@ -392,7 +392,7 @@ theorem N1_pk2_roundtrip (hc : c * c = 2) (h2 : (2:K) ≠ 0) (hJ : (dg f0 f1 f2)
   rw [e, A] at B
   exact smul_cancel hJ B
 /-- `S ↦ σ ↦ S` -/
-theorem N1_pk2_roundtrip' (hc : c * c = 2) (h2 : (2:K) ≠ 0) (hJ : (dg f0 f1 f2).det ≠ 0) :
+theorem N1_pk2_roundtrip_rev (hc : c * c = 2) (h2 : (2:K) ≠ 0) (hJ : (dg f0 f1 f2).det ≠ 0) :
     M3.ofMandel c (Gen.N1_cauchy_to_pk2_r c c3 fn (Gen.N1_pk2_to_cauchy_rv c c3 fn p (tensv (dg f0 f1 f2))) (tensv (dg f0 f1 f2))) = M3.ofMandel c [p 0, p 1, p 2] := by
   have A := N1_cauchy_to_pk2 c c3 fn f0 f1 f2 (Gen.N1_pk2_to_cauchy_rv c c3 fn p (tensv (dg f0 f1 f2))) hc h2 hJ
   have B := N1_pk2_to_cauchy c c3 fn f0 f1 f2 p hc h2 hJ
@@ -409,7 +409,7 @@ theorem N1_corot_roundtrip (hc : c * c = 2) (h2 : (2:K) ≠ 0) (hU : (M3.ofMande
   rw [e, A] at B
   exact smul_cancel hU B
 /-- `S ↦ σ̃ ↦ S` -/
-theorem N1_corot_roundtrip' (hc : c * c = 2) (h2 : (2:K) ≠ 0) (hU : (M3.ofMandel c [u 0, u 1, u 2]).det ≠ 0) :
+theorem N1_corot_roundtrip_rev (hc : c * c = 2) (h2 : (2:K) ≠ 0) (hU : (M3.ofMandel c [u 0, u 1, u 2]).det ≠ 0) :
     M3.ofMandel c (Gen.N1_corot_to_pk2_r c c3 fn (Gen.N1_pk2_to_corot_rv c c3 fn p u) u) = M3.ofMandel c [p 0, p 1, p 2] := by
   have A := N1_corot_to_pk2 c c3 fn (Gen.N1_pk2_to_corot_rv c c3 fn p u) u hc h2 hU
   have B := N1_pk2_to_corot c c3 fn p u hc h2 hU
